@@ -243,6 +243,9 @@ def random_track(rng, n_groups, *, max_tick_gap=400, res=192, big=False, phrases
     ticks = []
     for g in range(n_groups):
         combo = rng.choice(combos)
+        flags_only = rng.random() < 0.04            # the empty lane subset: a tick that carries flag lines only
+        if flags_only:
+            combo = ()
         idxs = [7] if combo == "open" else list(combo)
         lens = {}
         mode = rng.random()
@@ -253,8 +256,10 @@ def random_track(rng, n_groups, *, max_tick_gap=400, res=192, big=False, phrases
                 lens[ix] = base if r < 0.6 else (0 if r < 0.8 else rng.randrange(0, 3 * res + 5))
         forced = g > 0 and rng.random() < flags_p
         tap = rng.random() < flags_p / 2
+        if flags_only and not (forced or tap):
+            tap = True
         for fl in (5, 6):
-            if rng.random() < 0.3:
+            if rng.random() < (0.3 if not flags_only else 0.8):
                 lens[fl] = rng.randrange(0, 500)  # flag lines may carry a (meaningless) length
         nfl = len(idxs) + int(forced) + int(tap)
         order = list(range(nfl))
